@@ -2,9 +2,9 @@
 # usage: confirm_mutant.sh <ID>   (worktree /tmp/wt/<ID> with the change applied, deliverables in mutant/)
 ID=$1; W=/tmp/wt/$ID
 cd $W || exit 2
-echo "--- demo WITH the change"; (bash mutant/demo/run.sh $W > /tmp/wt/demo_$ID.with 2>&1; echo "exit=$?") | tail -1; tail -2 /tmp/wt/demo_$ID.with | cut -c1-200
+echo "--- demo WITH the change"; (bash mutant/demo/run.sh > /tmp/wt/demo_$ID.with 2>&1; echo "exit=$?") | tail -1; tail -2 /tmp/wt/demo_$ID.with | cut -c1-200
 git apply -R mutant/patch.diff || { echo "cannot reverse"; exit 2; }
-echo "--- demo WITHOUT the change"; (bash mutant/demo/run.sh $W > /tmp/wt/demo_$ID.without 2>&1; echo "exit=$?") | tail -1; tail -2 /tmp/wt/demo_$ID.without | cut -c1-200
+echo "--- demo WITHOUT the change"; (bash mutant/demo/run.sh > /tmp/wt/demo_$ID.without 2>&1; echo "exit=$?") | tail -1; tail -2 /tmp/wt/demo_$ID.without | cut -c1-200
 git apply mutant/patch.diff
 echo "--- test suite WITH the change (build dir /tmp/wt/scratch_$ID/build)"
 cmake --build /tmp/wt/scratch_$ID/build -j8 2>&1 | tail -1 | cut -c1-150
